@@ -18,6 +18,11 @@ var knownBaZi = [][4]string{
 	{"丁丑", "癸卯", "癸丑", "辛酉"}, {"壬寅", "庚戌", "己未", "乙亥"}, {"辛丑", "丁酉", "丙寅", "戊戌"},
 }
 
+var ganNames = []string{"甲", "乙", "丙", "丁", "戊", "己", "庚", "辛", "壬", "癸"}
+var zhiNames = []string{"子", "丑", "寅", "卯", "辰", "巳", "午", "未", "申", "酉", "戌", "亥"}
+
+func jiaZi(i int) string { return ganNames[i%10] + zhiNames[i%12] }
+
 type c09gen struct {
 	r     *Rng
 	hot   []int
@@ -36,6 +41,7 @@ var focusKinds = map[string][]string{
 	"holiday": {"holiday", "holidays_ym", "holidays_year", "holidays_target", "solar_next", "salary"},
 	"nav":     {"week", "smonth", "season", "halfyear", "syear", "week0", "smonth0", "season0", "halfyear0", "syear0", "week0", "smonth0"},
 	"jd":      {"jd2solar", "jd2solar", "jd2solar", "solar", "solar_next"},
+	"util":    {"su_days", "su_days", "su_between", "solar_rel", "lu_day", "lu_xun", "sx", "foto_xiu"},
 	"fortune": {"eightchar", "yun", "bazi"},
 }
 
@@ -151,10 +157,12 @@ func (g *c09gen) baseOp() ops.Op {
 	r := g.r
 	kinds := []string{"solar2lunar", "lunar", "lunar_next", "lyear", "lyear_next", "lmonth_next", "ltime", "tao", "foto", "eightchar", "yun",
 		"bazi", "holiday", "holidays_ym", "holidays_year", "holidays_target", "solar_next", "salary", "week", "smonth", "season", "halfyear", "syear", "jd2solar", "solar", "lmonth",
-		"week0", "smonth0", "season0", "halfyear0", "syear0"}
+		"week0", "smonth0", "season0", "halfyear0", "syear0",
+		"su_days", "su_between", "solar_rel", "lu_day", "lu_xun", "sx", "foto_xiu"}
 	w := []int{22, 16, 6, 9, 3, 8, 3, 3, 3, 5, 3,
 		2, 2, 2, 2, 2, 4, 2, 2, 1, 1, 1, 1, 3, 3, 3,
-		2, 1, 1, 1, 1}
+		2, 1, 1, 1, 1,
+		2, 1, 2, 1, 1, 1, 1}
 	k := kinds[r.Weighted(w)]
 	if fk, ok := focusKinds[g.focus]; ok && r.Chance(0.65) {
 		k = fk[r.Intn(len(fk))]
@@ -247,6 +255,31 @@ func (g *c09gen) baseOp() ops.Op {
 		return ops.Op{K: k, A: []int{y, m, d, r.Intn(7), r.Range(-5, 5), r.Intn(2)}}
 	case "smonth", "season", "halfyear":
 		return ops.Op{K: k, A: []int{g.anyYear(), r.Range(1, 12), r.Range(-14, 14)}}
+	case "su_days":
+		y, m, d := g.solarYmd(g.anyYear())
+		h, mi, sec := g.hms()
+		return ops.Op{K: k, A: []int{y, m, d, r.Intn(7), h, mi, sec}}
+	case "su_between":
+		y1, m1, d1 := g.solarYmd(g.anyYear())
+		y2, m2, d2 := g.solarYmd(g.anyYear())
+		return ops.Op{K: k, A: []int{y1, m1, d1, y2, m2, d2}}
+	case "solar_rel":
+		a := g.solarArgs()
+		b := g.solarArgs()
+		if r.Chance(0.3) {
+			b[0], b[1] = a[0], a[1]
+		}
+		return ops.Op{K: k, A: append(a, b...)}
+	case "lu_day":
+		return ops.Op{K: k, A: []int{r.Range(1, 12)}, S: []string{jiaZi(r.Intn(60)), jiaZi(r.Intn(60)), jiaZi(r.Intn(60))}}
+	case "lu_xun":
+		return ops.Op{K: k, S: []string{jiaZi(r.Intn(60)), fmt.Sprintf("%02d:%02d", r.Intn(24), r.Intn(60))}}
+	case "sx":
+		y := g.anyYear()
+		jd := float64(y-2000)*365.2422 + float64(r.Intn(365)) + float64(r.Intn(1000))/1000
+		return ops.Op{K: k, F: []string{fmt.Sprintf("%.3f", jd)}}
+	case "foto_xiu":
+		return ops.Op{K: k, A: []int{r.Range(1, 12), r.Range(1, 30)}}
 	case "week0":
 		y, m, d := g.solarYmd(g.anyYear())
 		return ops.Op{K: k, A: []int{y, m, d, r.Intn(7)}}
@@ -317,6 +350,12 @@ func (g *c09gen) invalidOp() ops.Op {
 		{K: "holiday", S: []string{"20"}},
 		{K: "week", A: []int{y, 13, 5, 1, 3, 0}},
 		{K: "week0", A: []int{y, 13, 1, 0}},
+		{K: "su_days", A: []int{y, 13, 1, 0, 0, 0, 0}},
+		{K: "su_between", A: []int{y, 2, 30, y, 14, 1}},
+		{K: "solar_rel", A: []int{y, 2, 30, 0, 0, 0, y, 1, 1, 0, 0, 0}},
+		{K: "lu_day", A: []int{13}, S: []string{"", "甲", "xx"}},
+		{K: "lu_xun", S: []string{"", "25:99"}},
+		{K: "foto_xiu", A: []int{13, 31}},
 		{K: "week0", A: []int{y, 0, 1, 1}},
 		{K: "week0", A: []int{y, 2, 30, 1}},
 		{K: "smonth0", A: []int{y, 13}},
@@ -389,7 +428,7 @@ func C09(seed uint64, run int) *spec.Spec {
 	if g.wide {
 		g.focus = r.PickS([]string{"lyear", "lyear", "lmonth", "lunar"})
 	} else if r.Chance(0.5) {
-		g.focus = r.PickS([]string{"lmonth", "lyear", "lunar", "solar", "holiday", "nav", "fortune", "jd", "lmonth", "lyear", "lunar", "solar", "nav"})
+		g.focus = r.PickS([]string{"lmonth", "lyear", "lunar", "solar", "holiday", "nav", "fortune", "jd", "util", "lmonth", "lyear", "lunar", "solar", "nav"})
 		if r.Chance(0.6) {
 			g.hot = g.hot[:1]
 		}
